@@ -183,3 +183,15 @@ claim("C05",
       "collection has grown; maximum-credibility trees attain the maximum of the reported scores.",
       TB + " Summaries that call sqrt/log run on concrete values per path.", "symbolic execution (CrossHair+z3) of split counting, consensus, collapsing and summarising with symbolic tree choices and symbolic integer weights",
       "DESIGN.md 3/C05")
+
+claim("C06",
+      "Bounded symbolic execution of the merge algebra of TreeArray/SplitDistribution and of the real SumTrees scheduler code. Merge: trees "
+      "from a pool are assigned to 1..3 sub-collections by symbolic choices (empty parts reachable), parts arrive in a symbolic order and are "
+      "merged with a symbolic choice of update/extend/+=/+, rooting explicit or implied; the result must equal one-at-a-time accumulation in "
+      "split counts, frequencies, per-split length multisets, consensus, maximum credibility score, keep its four per-tree lists aligned, "
+      "allow restore_tree for every index, never fail, and leave every sub-collection unchanged. Scheduler: "
+      "TreeProcessor.parallel_analyze_trees and TreeAnalysisWorker.run execute in-process with multiprocessing replaced by queue stubs whose "
+      "file-to-worker assignment and result arrival order are symbolic (more workers than files included, burn-in, quiet/logging mode); the "
+      "result must equal the serial run.",
+      TB + " Scheduler stub contract: workers interact only through the two queues.", "symbolic execution (CrossHair+z3) of merge histories and of the SumTrees scheduler with symbolic schedules through queue stubs",
+      "DESIGN.md 3/C06")
